@@ -29,7 +29,11 @@ func buildChild(t *testing.T) {
 		harness = "/verif/harness"
 	}
 	childBin = filepath.Join(ev.Root(), "out", "bin", "c11child")
-	cmd := exec.Command("go", "build", "-race", "-o", childBin, "./c11/child")
+	args := []string{"build", "-race"}
+	if mf := os.Getenv("VERIF_MODFILE"); mf != "" {
+		args = append(args, "-modfile="+mf)
+	}
+	cmd := exec.Command("go", append(args, "-o", childBin, "./c11/child")...)
 	cmd.Dir = harness
 	cmd.Env = append(os.Environ(), "CGO_ENABLED=1")
 	if out, err := cmd.CombinedOutput(); err != nil {
